@@ -38,6 +38,7 @@ class Ctx:
         self.keep: List[Any] = []          # keeps registered objects alive (no id reuse)
         self.log: List[list] = []          # event log written by instrumented callbacks
         self.errs: Dict[int, int] = {}     # id(custom error object) -> id
+        self.memo: Dict[Any, Any] = {}     # user callbacks by id: rebuilds share them (identity semantics)
 
     def reg_obj(self, obj: Any, oid: int) -> None:
         if oid:
@@ -53,6 +54,12 @@ class CustomErr:
 
     def __repr__(self) -> str:
         return f"CustomErr({self.eid})"
+
+    def __eq__(self, other: Any) -> bool:
+        return type(other) is CustomErr and other.eid == self.eid
+
+    def __hash__(self) -> int:
+        return hash(self.eid)
 
 
 # ---------------------------------------------------------------------------------------------
